@@ -635,7 +635,7 @@ def oracle(kind, inp):
       cidx = sorted({i for k in int_con for i, w in enumerate(k["weights"]) if w != 0})
       ohpos = oh_positions(dom)
       def cell_ok(x):
-        for combo in itertools.product(*[(numpy.floor(x[ohpos[i]]), numpy.ceil(x[ohpos[i]])) for i in cidx]):
+        for combo in itertools.product(*[sorted({numpy.floor(x[ohpos[i]]), numpy.ceil(x[ohpos[i]])}) for i in cidx]):
           y = dict(zip(cidx, combo))
           if all(sum(Fr(k["weights"][i]) * F(y[i]) for i in cidx if k["weights"][i] != 0) >= F(k["rhs"]) for k in int_con):
             return True
@@ -754,7 +754,15 @@ def real_relaxed(rng, dom):
     e = c["elements"]
     r = rng.random()
     if c["var_type"] == "categorical":
-      x.extend(rng.choice([0.0, 1.0, rng.random(), rng.random()]) for _ in e)
+      blk = [rng.choice([0.0, 1.0, rng.random(), rng.random()]) for _ in e]
+      if r < 0.2:  # a near tie (not an exact one): the largest value sits AFTER a value smaller by a few ulps .. 1e-8 relative
+        j = rng.randrange(1, len(e))
+        i = rng.randrange(0, j)
+        top = rng.choice([1.0, rng.uniform(0.05, 1.0)])
+        blk = [min(v, top / 2) for v in blk]
+        blk[j] = top
+        blk[i] = rng.choice([float(numpy.nextafter(top, 0.0)), top * (1 - 2.0 ** -rng.randint(26, 50)), top - 1e-9])
+      x.extend(blk)
     elif c["var_type"] == "quantized":
       lo, hi = min(e), max(e)
       x.append(lo if r < 0.1 else hi if r < 0.2 else (e[0] + e[1]) / 2 if r < 0.3 else rng.uniform(lo, hi))
@@ -769,6 +777,8 @@ def real_relaxed(rng, dom):
 
 def gen_search_case(rng):
   kind = rng.choice(["roundtrip", "roundtrip", "decode", "decode", "decode_ic", "detround", "ls", "nbr", "task"])
+  if rng.random() < 0.04:
+    return gen_many_ints(rng)
   if kind == "task":
     opts = sorted({round(rng.uniform(0.01, 1), rng.randint(1, 4)) for _ in range(rng.randint(1, 5))})
     return kind, dict(costs=[rng.choice([rng.random(), rng.choice(opts), (opts[0] + opts[-1]) / 2]) for _ in range(rng.randint(1, 6))], options=opts)
@@ -816,6 +826,48 @@ def gen_search_case(rng):
   if not comps:
     comps.append(real_component(rng, "int"))
   return "nbr", dict(dom=dom, x=real_relaxed(rng, dom))
+
+
+def gen_many_ints(rng):
+  """More than 13 integer parameters inside int constraints: the implementation leaves the exhaustive floor/ceil grid for
+  randomly drawn neighbours.  Valid (integral) points must still come back unchanged and decoded points stay in the unit cell."""
+  n_int = rng.randint(14, 17)
+  comps = [real_component(rng, "int") for _ in range(n_int)] + [real_component(rng, rng.choice(["double", "categorical", "quantized"])) for _ in range(rng.randint(0, 2))]
+  rng.shuffle(comps)
+  ints = [i for i, c in enumerate(comps) if c["var_type"] == "int"]
+  dom = dict(comps=comps, cons=[])
+  corner = rng.random() < 0.4
+  p = gen_valid_point(rng, dom, real=True)
+  if corner:   # the upper (or lower) corner of the int box
+    up = rng.random() < 0.7
+    for i in ints:
+      p[i] = comps[i]["elements"][1 if up else 0]
+  cons, used = [], set()
+  for _ in range(rng.randint(1, 2)):
+    w = [0] * len(comps)
+    for i in (ints if not used else rng.sample(ints, rng.randint(1, 4))):
+      w[i] = rng.choice([-2, -1, 1, 1, 2])
+      used.add(i)
+    cons.append(dict(weights=w, rhs=sum(a * b for a, b in zip(w, p)) - rng.choice([0, 0, 1, 3.5, 10]), var_type="int"))
+  dom["cons"] = cons
+  try:
+    make_domain(dom)
+  except AssertionError:   # the constructor refuses a region without interior (e.g. a tight constraint through a corner): not a domain
+    return gen_many_ints(rng)
+  T = rng.choice([None, 0, 0.2, 1.0])
+  seed = rng.randint(0, 2**31 - 1)
+  if rng.random() < 0.6:
+    return "roundtrip", dict(dom=dom, p=p, T=T, seed=seed)
+  # relaxed rows: the encoding of the valid point with at most two int coordinates pushed off the lattice (a feasible neighbour, when one exists, is then missed by 100 random draws with probability <= 0.75^100)
+  xs = []
+  for _ in range(rng.randint(1, 3)):
+    x = encode_ref(dom, p)
+    ohpos = oh_positions(dom)
+    for i in rng.sample(ints, rng.randint(0, 2)):
+      lo, hi = comps[i]["elements"]
+      x[ohpos[i]] = float(min(hi, max(lo, x[ohpos[i]] + rng.choice([-0.5, 0.25, 0.5, -0.125, rng.uniform(-1, 1)]))))
+    xs.append(x)
+  return "decode", dict(dom=dom, xs=xs, T=T, seed=seed)
 
 
 def gen_case_of(rng, want):
